@@ -42,9 +42,9 @@ pub fn profile() -> Profile {
 }
 
 #[derive(Debug, Clone)]
-struct Turn {
-    lines: Vec<(String, Vec<String>)>,
-    stop: TStop,
+pub struct Turn {
+    pub lines: Vec<(String, Vec<String>)>,
+    pub stop: TStop,
     /// diagnostic text (not compared)
     note: String,
 }
@@ -56,7 +56,7 @@ impl PartialEq for Turn {
 }
 
 #[derive(Debug, Clone, PartialEq)]
-enum TStop {
+pub enum TStop {
     Choices(Vec<(String, Vec<String>)>),
     End,
     Error,
@@ -67,7 +67,7 @@ fn norm_lines(v: Vec<(String, Vec<String>)>) -> Vec<(String, Vec<String>)> {
 }
 
 /// one turn of the real story: continue to the stop, collect lines
-fn real_turn(h: &mut Host) -> Turn {
+pub fn real_turn(h: &mut Host) -> Turn {
     let from = h.trace.len();
     h.apply(&HostOp::ContinueMax);
     let mut lines = vec![];
@@ -90,7 +90,7 @@ fn real_turn(h: &mut Host) -> Turn {
     Turn { lines: norm_lines(lines), stop, note }
 }
 
-fn model_turn(m: &mut Machine) -> Option<Turn> {
+pub fn model_turn(m: &mut Machine) -> Option<Turn> {
     let (lines, stop) = m.turn();
     let lines = norm_lines(lines.into_iter().map(|RLine { text, tags }| (text, tags)).collect());
     let mut note = String::new();
@@ -106,7 +106,16 @@ fn model_turn(m: &mut Machine) -> Option<Turn> {
     Some(Turn { lines, stop, note })
 }
 
-fn show_turn(t: &Turn) -> String {
+/// equality of a turn of the story and of the reference, except that a continue which reports
+/// an error does not deliver the text it had gathered
+pub fn turns_agree(story: &Turn, reference: &Turn) -> bool {
+    if story.stop == TStop::Error && reference.stop == TStop::Error && reference.lines.starts_with(&story.lines) {
+        return true;
+    }
+    story == reference
+}
+
+pub fn show_turn(t: &Turn) -> String {
     if t.note.is_empty() {
         format!("lines={:?} stop={:?}", t.lines, t.stop)
     } else {
